@@ -3,6 +3,7 @@ pub mod c03;
 pub mod c04;
 pub mod c13;
 pub mod c14;
+pub mod c15;
 pub mod c16;
 pub mod selftest;
 
@@ -16,6 +17,7 @@ pub fn run(id: &str, tier: Tier, hash_out: Option<String>) -> i32 {
         "C04" => c04::run(tier),
         "C13" => c13::run(tier),
         "C14" => c14::run(tier),
+        "C15" => c15::run(tier),
         "C16" => c16::run(tier),
         _ => {
             eprintln!("unknown property {}", id);
@@ -31,6 +33,7 @@ pub fn replay_families(id: &str, tier: Tier) -> Option<Vec<Family<'static>>> {
         "C04" => Some(c04::replay_families(tier)),
         "C13" => Some(c13::replay_families(tier)),
         "C14" => Some(c14::replay_families(tier)),
+        "C15" => Some(c15::replay_families(tier)),
         "C16" => Some(c16::replay_families(tier)),
         _ => None,
     }
